@@ -360,7 +360,10 @@ def source_menu(N, nvals, sit, pos, alphas, hot_modes, shiftpol="full"):
     """All (hot, timeline) choices for the source at position `pos`."""
     out = []
     for hot in hot_modes:
-        shifts = (0, 5) if shiftpol == "grid" else ((0, 5, -15) if hot else (0, 5, "sync"))
+        if shiftpol == "lag":  # a source lagging behind the others' completions (backlogs build up)
+            shifts = (0, 25)
+        else:
+            shifts = (0, 5) if shiftpol == "grid" else ((0, 5, -15) if hot else (0, 5, "sync"))
         for sh in shapes(N, nvals, sit):
             for shift in shifts:
                 if shift != 0 and sh[2]:
@@ -378,12 +381,14 @@ def plan(tier):
         return [
             (OPS, (1, 2), 2, 2, True, "all", "full"),
             (OPS, (3,), 1, 1, False, "uniform", "full"),
+            (("zip", "combine_latest", "fork_join"), (3,), 2, 1, False, "uniform", "lag"),
         ]
     return [
         (OPS, (1, 2), 2, 2, True, "all", "full"),
         (OPS, (3,), 2, 2, False, "uniform", "grid"),
         (OPS, (3,), 1, 2, True, "all", "full"),
         (("zip", "combine_latest"), (4,), 1, 1, False, "uniform", "full"),
+        (OPS, (3,), 2, 1, False, "uniform", "lag"),
     ]
 
 
@@ -439,7 +444,7 @@ def run(ctx: core.Ctx):
              "terminal_in_same_instant_as_last_element": sit, "hot_cold_patterns": hp, "shifts": sp}
             for (o, a, N, nv, sit, hp, sp) in plan(ctx.tier)
         ],
-        "shift_policies": "full = cold 0,+5,sync(all inside subscribe) / hot 0,+5,-15; grid = 0,+5",
+        "shift_policies": "full = cold 0,+5,sync(all inside subscribe) / hot 0,+5,-15; grid = 0,+5; lag = 0,+25 (a source lagging behind the others' completions)",
         "forms": list(FORMS),
     }
     ctx.assumptions = [
